@@ -55,12 +55,24 @@ class SimListDrop(list):
     """A list whose dict elements are SimDrops (so `objs[0].title` suspends)."""
 
 
+def _revive(v):
+    """JSON-able encodings of values JSON cannot carry: {"__markup__": s} -> Markup(s)."""
+    if isinstance(v, dict):
+        if len(v) == 1 and "__markup__" in v:
+            from markupsafe import Markup
+            return Markup(v["__markup__"])
+        return {k: _revive(x) for k, x in v.items()}
+    if isinstance(v, list):
+        return [_revive(x) for x in v]
+    return v
+
+
 def build_data(spec, loop=None):
     """Fresh Python objects for one render from a JSON-able spec."""
     import copy
     out = {}
     for k, v in spec["vars"].items():
-        v = copy.deepcopy(v)
+        v = _revive(copy.deepcopy(v))
         if k in spec.get("drops", ()):
             if isinstance(v, dict):
                 v = SimDrop(v, loop, "drop." + k)
